@@ -641,7 +641,7 @@ func ruleRegisterAfterSend(c *chk.Ctx) {
 			okSend := c.P.AllContexts(mu, nil, func(cs []ir.Cond) bool {
 				for _, cd := range cs {
 					if x, eq, ok := ir.NilCompare(cd.V); ok && eq == cd.Truth {
-						if call, ok := x.(*ssa.Call); ok && call.Call.IsInvoke() && call.Call.Method.Name() == "Send" {
+						if call, ok := x.(*ssa.Call); ok && (isSendInvoke(call) || nilMeansSendOK(call)) {
 							return true
 						}
 					}
@@ -756,18 +756,75 @@ func ruleHooks(c *chk.Ctx) {
 						installed = true
 					}
 				}
-				if f.Parent() != nil {
-					ir.Instrs(f.Parent(), func(i2 ssa.Instruction) {
-						mc, ok := i2.(*ssa.MakeClosure)
-						if !ok || mc.Fn != f {
-							return
-						}
-						ir.Instrs(f.Parent(), func(i3 ssa.Instruction) {
-							if s, ok := i3.(*ssa.Send); ok && chk.LoadsField(s.Chan, c.M.RCh) && ir.InstrDominates(s, mc) {
-								installed = true
+				// the hook may sit in a closure (or in a private method that closure calls) which is
+				// created only after the slot write
+				cur := f
+				for depth := 0; depth < 3 && !installed && cur != nil; depth++ {
+					if cur.Parent() != nil {
+						par := cur.Parent()
+						ir.Instrs(par, func(i2 ssa.Instruction) {
+							mc, ok := i2.(*ssa.MakeClosure)
+							if !ok || mc.Fn != cur {
+								return
+							}
+							for _, ss := range slotSends(c) {
+								if ss.owner == "client" && c.P.IDominates(ss.send, mc) {
+									installed = true
+								}
 							}
 						})
-					})
+					}
+					if installed {
+						break
+					}
+					if cs, ok := c.P.SoleCaller(cur); ok {
+						cur = cs.Caller
+					} else {
+						break
+					}
+				}
+				// or the call is governed by a flag that is set only after the slot write
+				if !installed {
+					for _, cd := range ir.CondsAt(ins.Block()) {
+						if !cd.Truth {
+							continue
+						}
+						u, ok := cd.V.(*ssa.UnOp)
+						if !ok || u.Op != token.MUL {
+							continue
+						}
+						var cell *ssa.Alloc
+						switch a := u.X.(type) {
+						case *ssa.Alloc:
+							cell = a
+						case *ssa.FreeVar:
+							if b, ok := ir.NormCell(u).(*ssa.Alloc); ok {
+								cell = b
+							}
+						}
+						if cell == nil {
+							continue
+						}
+						good, n := true, 0
+						for _, st := range ir.CellStores(cell) {
+							if k, isK := st.Val.(*ssa.Const); isK && k.Value != nil && k.Value.String() == "false" {
+								continue
+							}
+							n++
+							dom := false
+							for _, ss := range slotSends(c) {
+								if ss.owner == "client" && ss.fn == st.Parent() && ir.InstrDominates(ss.send, st) {
+									dom = true
+								}
+							}
+							if !dom {
+								good = false
+							}
+						}
+						if good && n > 0 {
+							installed = true
+						}
+					}
 				}
 				c.Check(installed, "HOOK.cancel", f, "OnCancel only for the ender", ci.Pos(), "the hook closure is created only after this goroutine wrote the slot (it ended the request, no reply did)", "the cancel hook can be scheduled on a path that did not end the request: it could run for an answered request, or twice")
 			case chk.LoadsField(v, c.M.CShook):
@@ -1016,6 +1073,25 @@ func ruleWatcherContextPairing(c *chk.Ctx) {
 					if len(rv) == 1 && len(cv) == 1 {
 						re, ok3 := rv[0].(*ssa.Extract)
 						ce, ok4 := cv[0].(*ssa.Extract)
+						// or the Response is built in place with the cancel function of the very
+						// WithCancel call that made the context
+						if al, isAl := rv[0].(*ssa.Alloc); isAl && ok4 && ce.Index == 0 {
+							for _, ref := range *al.Referrers() {
+								if fa, ok := ref.(*ssa.FieldAddr); ok && ir.FieldVar(fa) == c.M.RCancel {
+									for _, r2 := range *fa.Referrers() {
+										if s2, ok := r2.(*ssa.Store); ok {
+											v := ir.NormCell(s2.Val)
+											if ct, isCT := v.(*ssa.ChangeType); isCT {
+												v = ir.NormCell(ct.X)
+											}
+											if e2, isE := v.(*ssa.Extract); isE && e2.Tuple == ce.Tuple && e2.Index == 1 {
+												re, ok3 = e2, true
+											}
+										}
+									}
+								}
+							}
+						}
 						if ok3 && ok4 && re.Tuple == ce.Tuple && re.Index != ce.Index && re.Block() == ce.Block() {
 							// the appends are in the same block too
 							var ra, ca *ssa.BasicBlock
@@ -1024,7 +1100,7 @@ func ruleWatcherContextPairing(c *chk.Ctx) {
 									if b, isB := call.Call.Value.(*ssa.Builtin); isB && b.Name() == "append" {
 										els, _ := c.P.ElementValues(call.Call.Args[1])
 										for _, e := range els {
-											if e == ssa.Value(re) {
+											if e == ssa.Value(re) || e == rv[0] {
 												ra = call.Block()
 											}
 											if e == ssa.Value(ce) {
@@ -1171,4 +1247,61 @@ func pairedInStruct(c *chk.Ctx, resp ssa.Value, watcher *ssa.Go) (bool, string) 
 		}
 	}
 	return true, ""
+}
+
+
+func isSendInvoke(call *ssa.Call) bool {
+	return call != nil && call.Call.IsInvoke() && call.Call.Method.Name() == "Send"
+}
+
+// nilMeansSendOK: call invokes a private helper with a single error result all
+// of whose returns are either the channel Send's own result, or a value known
+// to be non-nil where it is returned: so a nil result means Send returned nil.
+func nilMeansSendOK(call *ssa.Call) bool {
+	h := call.Call.StaticCallee()
+	if h == nil || ir.Exported(h) || len(h.Blocks) == 0 || h.Signature.Results().Len() != 1 {
+		return false
+	}
+	viaSend := false
+	for _, r := range ir.Returns(h) {
+		v := ir.NormCell(ir.ReturnResult(r, 0))
+		if sc, ok := v.(*ssa.Call); ok && isSendInvoke(sc) {
+			viaSend = true
+			continue
+		}
+		if nonNilValue(v) {
+			// a load of a field is "non-nil" only if the branch outcomes at the return say so
+			if u, isU := v.(*ssa.UnOp); isU {
+				if _, isGlobal := u.X.(*ssa.Global); isGlobal {
+					continue
+				}
+			} else {
+				continue
+			}
+		}
+		same := func(y ssa.Value) bool {
+			if y == v {
+				return true
+			}
+			// the same field read again
+			return ir.SameValue(y, v) || sameFieldLoad(y, v)
+		}
+		if ir.ProvesNonNil(ir.CondsAt(r.Block()), same) {
+			continue
+		}
+		return false
+	}
+	return viaSend
+}
+
+// sameFieldLoad: two loads of the same field of the same base value.
+func sameFieldLoad(a, b ssa.Value) bool {
+	ua, ok1 := a.(*ssa.UnOp)
+	ub, ok2 := b.(*ssa.UnOp)
+	if !ok1 || !ok2 || ua.Op != token.MUL || ub.Op != token.MUL {
+		return false
+	}
+	fa, ok1 := ua.X.(*ssa.FieldAddr)
+	fb, ok2 := ub.X.(*ssa.FieldAddr)
+	return ok1 && ok2 && fa.Field == fb.Field && ir.NormCell(fa.X) == ir.NormCell(fb.X)
 }
